@@ -74,7 +74,10 @@ def run_case(prog):
         ct, data = delivered[n]
         text = data.decode("utf8", "replace")
         if g["type"] == "traceback":
-            return ct.subtype == "x-traceback" and ("MARK-%d-" % g["marker"]) in text
+            # the traceback *of that exception*: its last line names the marker, and it is not the
+            # traceback of a MultipleExceptions wrapper that merely quotes its constituents
+            last = [ln for ln in text.splitlines() if ln.strip()][-1:] or [""]
+            return ct.subtype == "x-traceback" and ("MARK-%d-" % g["marker"]) in last[0] and "MultipleExceptions" not in last[0]
         if g["type"] == "traceback-xfail":
             return ct.subtype == "x-traceback" and "MismatchError" in text and "1 != 2" in text
         if g["type"] == "mismatch-detail":
